@@ -1,276 +1,9 @@
-import AiutiVerif.Buffer.Model
-/-!
-# Run-level invariant of the buffer machine (C03 conservation, C07 barrier)
-
-For **every** program of timed inputs without a shutdown (the shutdown clause is C07's known
-finding F5), at every instant:
-
-* *conservation* — every element a submitted producer yields is in exactly the places the
-  code keeps it: still queued, among the loaders of the next iteration, captured by the timed
-  read, being loaded, in the round's input set, or delivered by a successful call; and nothing
-  else is ever there (`only`);
-* *barrier* — a `wait()` returns only when everything submitted before it was called has been
-  delivered by a successful call (`retLog`), because the queue's unfinished count is exactly
-  "queued + captured-and-not-yet-loaded" and the flag is set only with an empty round.
--/
+import AiutiVerif.Buffer.Inv0
+import AiutiVerif.Buffer.InvJoinA
+import AiutiVerif.Buffer.InvJoinB
+import AiutiVerif.Buffer.InvJoinT
+/-! Preservation of the buffer invariant `K`: `wait()` passing its join, `checkJoin`. -/
 namespace AiutiVerif.Buffer
-
-def flat (l : List Producer) : List Nat := (l.map pitems).flatten
-
-def gstate (s : St) : Option GState := s.getting.map (·.state)
-
-/-- what the timed read has captured (kept until the next timed read is created) -/
-def capItems (s : St) : List Nat :=
-  match s.getting with
-  | some g => if g.state = GState.got then pitems g.captured else []
-  | none => []
-
-/-- captured, and `task_done()` for it has not been called yet -/
-def capOpen (s : St) : Bool :=
-  match s.getting with
-  | some g => g.state == GState.got && s.pc != Pc.iter
-  | none => false
-
-def Pc.roundEnd : Pc → Bool
-  | .runfunc | .running _ _ | .endround | .idle => true
-  | _ => false
-
-def Pc.isLoading : Pc → Bool
-  | .loading _ | .loadcap _ => true
-  | _ => false
-
-def Pc.isLoadcap : Pc → Bool
-  | .loadcap _ => true
-  | _ => false
-
-def Pc.isRunning : Pc → Bool
-  | .running _ _ => true
-  | _ => false
-
-/-- What the output stream says has been delivered: the arguments of the calls that returned
-successfully, and the arguments of the call in flight. -/
-def stepOut (acc : List Nat × Option (List Nat)) : Out → List Nat × Option (List Nat)
-  | .start _ a => (acc.1, some a)
-  | .fin _ true => (acc.1 ++ acc.2.getD [], none)
-  | .fin _ false => (acc.1, none)
-  | .waitRet _ _ => acc
-
-def deliveredOf (outs : List Out) : List Nat × Option (List Nat) := outs.foldl stepOut ([], none)
-
-/-- Calls are serial: `some inflight` while no `start` has been seen with a call still in flight
-and no `fin` without one. -/
-def stepSerial (acc : Option Bool) : Out → Option Bool
-  | .start _ _ => match acc with
-    | some false => some true
-    | _ => none
-  | .fin _ _ => match acc with
-    | some true => some false
-    | _ => none
-  | .waitRet _ _ => acc
-
-def serial (outs : List Out) : Option Bool := outs.foldl stepSerial (some false)
-
-/-- the `wait()` calls that returned, in order -/
-def waitIds (outs : List Out) : List Nat :=
-  outs.filterMap fun o => match o with
-    | .waitRet id _ => some id
-    | _ => none
-
-/-- the places an element can be -/
-def Held (s : St) (x : Nat) : Prop :=
-  x ∈ flat s.queue ∨ x ∈ flat s.gens ∨ x ∈ capItems s ∨ x ∈ s.pendingItems ∨ x ∈ s.inputs ∨ x ∈ s.delivered
-
-/-- … of which these belong to the current round (already taken from the queue) -/
-def InRound (s : St) (x : Nat) : Prop :=
-  x ∈ flat s.gens ∨ x ∈ s.pendingItems ∨ x ∈ s.inputs ∨ x ∈ s.delivered
-
-structure K (s : St) : Prop where
-  alive : s.daemonEnded = false
-  conserve : ∀ x ∈ s.submitted, Held s x
-  only : ∀ x, Held s x → x ∈ s.submitted
-  gensIter : s.pc ≠ Pc.iter → s.gens = []
-  pendPc : s.pc.isLoading = false → s.pendingItems = []
-  capDone : s.pc = Pc.iter → ∀ x ∈ capItems s, x ∈ s.inputs
-  capLoad : s.pc.isLoadcap = true → gstate s = some GState.got ∧ s.pendingItems = capItems s
-  quietPc : s.pc.roundEnd = true → gstate s ≠ some GState.got ∧ gstate s ≠ some GState.pending
-  iterNotPending : s.pc = Pc.iter → gstate s ≠ some GState.pending
-  -- barrier
-  unfin : s.unfinished = s.queue.length + (if capOpen s then 1 else 0)
-  evRound : s.event = true → (s.pc = Pc.idle ∨ s.pc = Pc.endround) ∧ s.inputs = []
-  flagEv : s.flaggers ≠ [] → s.event = false
-  flagOk : ∀ w ∈ s.flaggers, w.before ≤ s.submitted.length ∧ ∀ x ∈ s.submitted.take w.before, InRound s x
-  joinOk : ∀ w ∈ s.joiners, w.before ≤ s.submitted.length
-  retOk : ∀ r ∈ s.retLog, r.2 ≤ s.submitted.length ∧ ∀ x ∈ s.submitted.take r.2, x ∈ s.delivered
-  -- the round's input set is empty between rounds
-  idleInputs : (s.pc = Pc.idle ∨ s.pc = Pc.endround) → s.inputs = []
-  -- the ghosts and the output stream tell the same story
-  outsDeliv : (deliveredOf s.outs).1 = s.delivered
-  outsCur : (deliveredOf s.outs).2 = (if s.pc.isRunning then some (sortNat s.inputs) else none)
-  outsWaits : waitIds s.outs = s.retLog.map (·.1)
-  -- calls of the wrapped function are serial and never empty
-  serialOk : serial s.outs = some s.pc.isRunning
-  startsOk : ∀ t a, Out.start t a ∈ s.outs → a ≠ []
-
-/-! ### list facts -/
-
-theorem flat_nil : flat [] = [] := rfl
-theorem flat_cons (p : Producer) (r : List Producer) : flat (p :: r) = pitems p ++ flat r := by
-  simp [flat]
-theorem flat_append (a b : List Producer) : flat (a ++ b) = flat a ++ flat b := by
-  simp [flat]
-
-theorem mem_addInputs (xs : List Nat) : ∀ (acc : List Nat) (x : Nat), x ∈ addInputs acc xs ↔ x ∈ acc ∨ x ∈ xs := by
-  induction xs with
-  | nil => intro acc x; simp [addInputs]
-  | cons y r ih =>
-    intro acc x
-    unfold addInputs
-    simp only [List.foldl_cons]
-    have := ih (if acc.contains y then acc else acc ++ [y]) x
-    unfold addInputs at this
-    rw [this]
-    by_cases hc : acc.contains y = true
-    · simp only [hc, if_true, List.mem_cons]
-      have hy : y ∈ acc := by simpa using hc
-      constructor
-      · rintro (h | h)
-        · exact Or.inl h
-        · exact Or.inr (Or.inr h)
-      · rintro (h | h | h)
-        · exact Or.inl h
-        · subst h; exact Or.inl hy
-        · exact Or.inr h
-    · have hc' : acc.contains y = false := by simpa using hc
-      simp only [hc', Bool.false_eq_true, if_false, List.mem_append, List.mem_singleton, List.mem_cons, List.not_mem_nil, or_false]
-      constructor
-      · rintro ((h | h) | h)
-        · exact Or.inl h
-        · exact Or.inr (Or.inl h)
-        · exact Or.inr (Or.inr h)
-      · rintro (h | h | h)
-        · exact Or.inl (Or.inl h)
-        · exact Or.inl (Or.inr h)
-        · exact Or.inr h
-
-
-theorem deliveredOf_snoc (outs : List Out) (o : Out) : deliveredOf (outs ++ [o]) = stepOut (deliveredOf outs) o := by
-  simp [deliveredOf, List.foldl_append]
-
-theorem deliveredOf_waits (ws : List Waiter) (t : Nat) : ∀ (outs : List Out),
-    deliveredOf (outs ++ ws.map fun w => Out.waitRet w.id t) = deliveredOf outs := by
-  induction ws with
-  | nil => intro outs; simp
-  | cons w r ih =>
-    intro outs
-    have : outs ++ List.map (fun w => Out.waitRet w.id t) (w :: r) =
-        (outs ++ [Out.waitRet w.id t]) ++ List.map (fun w => Out.waitRet w.id t) r := by simp
-    rw [this, ih, deliveredOf_snoc]
-    rfl
-
-theorem serial_snoc (outs : List Out) (o : Out) : serial (outs ++ [o]) = stepSerial (serial outs) o := by
-  simp [serial, List.foldl_append]
-
-theorem serial_waits (ws : List Waiter) (t : Nat) : ∀ (outs : List Out),
-    serial (outs ++ ws.map fun w => Out.waitRet w.id t) = serial outs := by
-  induction ws with
-  | nil => intro outs; simp
-  | cons w r ih =>
-    intro outs
-    have : outs ++ List.map (fun w => Out.waitRet w.id t) (w :: r) =
-        (outs ++ [Out.waitRet w.id t]) ++ List.map (fun w => Out.waitRet w.id t) r := by simp
-    rw [this, ih, serial_snoc]
-    rfl
-
-theorem sortNat_ne_nil' (l : List Nat) (h : l ≠ []) : sortNat l ≠ [] := by
-  cases l with
-  | nil => exact absurd rfl h
-  | cons x r =>
-    unfold sortNat
-    simp only [List.foldr_cons]
-    generalize List.foldr insertSorted [] r = acc
-    cases acc with
-    | nil => simp [insertSorted]
-    | cons y t => unfold insertSorted; split <;> simp
-
-theorem waitIds_snoc_wait (outs : List Out) (id t : Nat) : waitIds (outs ++ [Out.waitRet id t]) = waitIds outs ++ [id] := by
-  simp [waitIds, List.filterMap_append]
-theorem waitIds_snoc_start (outs : List Out) (t : Nat) (a : List Nat) : waitIds (outs ++ [Out.start t a]) = waitIds outs := by
-  simp [waitIds, List.filterMap_append]
-theorem waitIds_snoc_fin (outs : List Out) (t : Nat) (b : Bool) : waitIds (outs ++ [Out.fin t b]) = waitIds outs := by
-  simp [waitIds, List.filterMap_append]
-theorem waitIds_waits (ws : List Waiter) (t : Nat) (outs : List Out) :
-    waitIds (outs ++ ws.map fun w => Out.waitRet w.id t) = waitIds outs ++ ws.map (·.id) := by
-  induction ws generalizing outs with
-  | nil => simp
-  | cons w r ih =>
-    have : outs ++ List.map (fun w => Out.waitRet w.id t) (w :: r) =
-        (outs ++ [Out.waitRet w.id t]) ++ List.map (fun w => Out.waitRet w.id t) r := by simp
-    rw [this, ih, waitIds_snoc_wait]
-    simp
-
-theorem mem_insertSorted (x y : Nat) : ∀ (l : List Nat), x ∈ insertSorted y l ↔ x = y ∨ x ∈ l := by
-  intro l
-  induction l with
-  | nil => simp [insertSorted]
-  | cons z r ih =>
-    unfold insertSorted
-    split
-    · simp
-    · simp only [List.mem_cons, ih]
-      constructor
-      · rintro (h | h | h)
-        · exact Or.inr (Or.inl h)
-        · exact Or.inl h
-        · exact Or.inr (Or.inr h)
-      · rintro (h | h | h)
-        · exact Or.inr (Or.inl h)
-        · exact Or.inl h
-        · exact Or.inr (Or.inr h)
-
-theorem mem_sortNat (x : Nat) : ∀ (l : List Nat), x ∈ sortNat l ↔ x ∈ l := by
-  intro l
-  induction l with
-  | nil => simp [sortNat]
-  | cons y r ih =>
-    have : sortNat (y :: r) = insertSorted y (sortNat r) := rfl
-    rw [this, mem_insertSorted, ih]
-    simp
-
-theorem length_pos_of_ne_nil {α} {l : List α} (h : l ≠ []) : 0 < l.length := List.length_pos_iff.mpr h
-
-macro "unfold_k" : tactic => `(tactic|
-  simp only [Held, InRound, capItems, capOpen, gstate, Pc.roundEnd, Pc.isLoading, Pc.isLoadcap, Pc.isRunning, deliveredOf_snoc, deliveredOf_waits, stepOut, serial_snoc, serial_waits, stepSerial,
-    waitIds_snoc_wait, waitIds_snoc_start, waitIds_snoc_fin, waitIds_waits, List.map_append, List.map_cons, List.map_nil,
-    List.map_map, Function.comp_def, Option.getD_some, Option.getD_none, flat_nil, flat_cons,
-    flat_append, List.mem_append, mem_addInputs, Option.map_some, Option.map_none, List.length_cons, List.length_nil,
-    List.length_append, List.not_mem_nil, false_or, or_false, List.mem_cons, reduceCtorEq, if_true, if_false,
-    Bool.and_true, Bool.and_false, Bool.true_and, Bool.false_and, bne_self_eq_false, beq_self_eq_true,
-    Bool.false_eq_true, ne_eq, not_true_eq_false, not_false_eq_true, Option.some.injEq, false_implies, implies_true,
-    true_implies, and_true, true_and, forall_const] at *)
-
-macro "close_k" : tactic => `(tactic|
-  (constructor <;> (try unfold_k) <;> (try subst_vars) <;> (try unfold_k) <;> intros <;>
-   grind [flat_nil, flat_cons, flat_append, mem_sortNat, sortNat_ne_nil']))
-
-set_option hygiene false in
-macro "destruct_st" s:ident : tactic => `(tactic|
-  rcases $s:ident with ⟨T, outcomes, now, queue, unfinished, event, pc, gens, inputs, pendingItems, getting, ninv, joiners,
-    flaggers, outs, submitted, delivered, subTimes, lastSub, retLog, tie, daemonEnded, shutdownPhase⟩)
-
-set_option maxHeartbeats 4000000 in
-theorem zstep_idle_K (s : St) (p : Producer) (rest : List Producer) (h : K s) (hpc : s.pc = Pc.idle)
-    (hq : s.queue = p :: rest) :
-    K { s with queue := rest, event := false, unfinished := s.unfinished - 1, gens := [p], pc := .iter } := by
-  destruct_st s
-  obtain ⟨h1, h2, h3, h4, h5, h6, h7, h8, h9, h10, h11, h12, h13, h14, h15, h16, h17, h18, h19, h20, h21⟩ := h
-  dsimp only at *
-  subst hpc hq
-  cases getting with
-  | none => close_k
-  | some g =>
-    obtain ⟨dl, st, cap⟩ := g
-    cases st <;> close_k
-
 
 /-! ### `wait()` passing its join -/
 
@@ -301,23 +34,16 @@ theorem cancelGetting_frame (s : St) (w : Waiter) :
   · exact ⟨rfl, rfl, rfl, rfl⟩
 
 
-set_option hygiene false in
-macro "split_getting" : tactic => `(tactic|
-  (rcases getting with _ | ⟨dl, st, cap⟩ <;> (try cases st)))
-
-macro "close_k'" : tactic => `(tactic|
-  (constructor <;> (try unfold_k) <;> (try subst_vars) <;> (try unfold_k) <;> intros <;>
-   grind [flat_nil, flat_cons, flat_append, List.mem_of_mem_take, mem_sortNat, sortNat_ne_nil']))
-
-set_option maxHeartbeats 16000000 in
 theorem passJoin_core (s : St) (w : Waiter) (h : K s) (hu : s.unfinished = 0) (hb : w.before ≤ s.submitted.length) :
     K (if s.event then { s with outs := s.outs ++ [Out.waitRet w.id s.now], retLog := s.retLog ++ [(w.id, w.before)] }
        else { s with flaggers := s.flaggers ++ [w] }) := by
-  destruct_st s
-  obtain ⟨h1, h2, h3, h4, h5, h6, h7, h8, h9, h10, h11, h12, h13, h14, h15, h16, h17, h18, h19, h20, h21⟩ := h
-  dsimp only at *
-  subst hu
-  cases event <;> simp only [Bool.false_eq_true, if_true, if_false] <;> split_getting <;> cases pc <;> close_k'
+  by_cases he : s.event = true
+  · rw [if_pos he]; exact passJoin_true s w h hu hb he
+  · have he' : s.event = false := by simpa using he
+    rw [if_neg he]
+    by_cases hg : gstate s = none ∨ gstate s = some GState.pending ∨ gstate s = some GState.got
+    · exact passJoin_falseA s w h hu hb he' hg
+    · exact passJoin_falseB s w h hu hb he' hg
 
 theorem passJoin_K (s : St) (w : Waiter) (h : K s) (hu : s.unfinished = 0) (hb : w.before ≤ s.submitted.length) :
     K (passJoin s w) := by
